@@ -158,6 +158,12 @@ func genXm(r *core.Rand, pr Profile, sec bool, mayClose bool, seqMode bool) stri
 		// keep such uploads inside what the proxy has read together with the head
 		capUnread()
 	}
+	if rq == "hijack" && rb > 2000 {
+		// a request-modifier hijacker answers without reading the upload and the proxy then closes the
+		// connection: the same artefact (the client's write fails / RST destroys the hijacker's answer
+		// on a slow machine; seen once in an offline check run as c02:not-closed-after-hijack)
+		capUnread()
+	}
 	kv = append(kv, "rq="+rq, "rs="+rs)
 	kv = append(kv, errKinds(r, rq, rs)...)
 	kv = append(kv, consulted(r, rq != "pass" || rs != "pass")...)
